@@ -25,7 +25,8 @@ CONSTANTS Slates,        \* slate names, e.g. {"s1","s2"}
           UseScan,       \* owner::scan (with and without delete_unconfirmed), restore from seed
           UseDiverge,    \* inject divergences into w1's records
           UseAccounts2,  \* a second account on the recipient w2, receives into it by name
-          UseSelf        \* w1 may receive its own slates (self-send), also into its second account
+          UseSelf,       \* w1 may receive its own slates (self-send), also into its second account
+          FundAcct2      \* w1 starts with a second account (a1 / "acct1") that holds NFund coinbases too
 
 VARIABLES st, hv, net, hist, mids   \* mids: the intermediate persistent states of the last step
 vars == <<st, hv, net, hist, mids>>
@@ -50,7 +51,17 @@ Fund(s, n) == IF n = 0 THEN s ELSE Fund(MineTo(s, "w1", {}), n - 1)
 \* NFund blocks to w1, then Maturity foreign blocks so that everything is mature
 RECURSIVE Pad(_, _)
 Pad(s, n) == IF n = 0 THEN s ELSE Pad(MineForeign(s, {}), n - 1)
-InitWorld == RefreshLite(RefreshLite(Pad(Fund(Empty, NFund), Maturity), "w1"), "w2")
+Act(s, lbl) == LastOf(SetActive(s, "w1", [label |-> lbl]).steps)
+InitWorld1 == RefreshLite(RefreshLite(Pad(Fund(Empty, NFund), Maturity), "w1"), "w2")
+\* two funded accounts: fund default, create acct1, fund it, pad, refresh both accounts (as the harness does)
+InitWorld2 ==
+  LET s1 == Fund(Empty, NFund)
+      s2 == LastOf(CreateAccount(s1, "w1", [name |-> "a1", label |-> "acct1"]).steps)
+      s3 == Act(Pad(Fund(Act(s2, "acct1"), NFund), Maturity), "default")
+      s4 == Act(RefreshLite(Act(RefreshLite(s3, "w1"), "acct1"), "w1"), "default")
+  IN RefreshLite(s4, "w2")
+InitWorld == IF FundAcct2 THEN InitWorld2 ELSE InitWorld1
+NFundAll == IF FundAcct2 THEN 2 * NFund ELSE NFund
 
 Init == /\ st = InitWorld
         /\ hv = EmptyHist(WS)
@@ -254,7 +265,7 @@ SetActiveAct(a) ==
 \* -- reorganisations, restore from seed, scan, injected divergences (C16, C18)
 NFork == Cardinality({m \in net : m.stage = "FORK"})
 ForkAct(d, keep) ==
-  /\ Height(st) - d >= NFund + Maturity /\ Height(st) + 1 <= MaxH
+  /\ Height(st) - d >= NFundAll + Maturity /\ Height(st) + 1 <= MaxH
   /\ NFork < 2
   /\ LET base == [st EXCEPT !.chain = SubSeq(st.chain, 1, Height(st) - d)]
          removed == UNION {st.chain[i].txs : i \in (Height(st) - d + 1)..Height(st)} IN
@@ -334,8 +345,8 @@ Next ==
 Spec == Init /\ [][Next]_vars
 
 \* ------------------------------------------------------------ constraints
-Bound == \A w \in WS0 : /\ Cardinality(DOMAIN st.w[w].txs) <= MaxLog + (IF w = "w1" THEN NFund ELSE 0)
-                        /\ Cardinality(DOMAIN st.w[w].outs) <= MaxLog + 1 + (IF w = "w1" THEN NFund ELSE 0)
+Bound == \A w \in WS0 : /\ Cardinality(DOMAIN st.w[w].txs) <= MaxLog + (IF w = "w1" THEN NFundAll ELSE 0)
+                        /\ Cardinality(DOMAIN st.w[w].outs) <= MaxLog + 1 + (IF w = "w1" THEN NFundAll ELSE 0)
 View == <<st, hv, net>>
 
 \* ------------------------------------------------------------- invariants
@@ -345,6 +356,8 @@ View == <<st, hv, net>>
 \* full error trace per violation, which is far too slow when a defect is reachable often)
 Cex(name) == PrintT(<<"CEX", ToJson([inv |-> name, hist |-> hist])>>)
 Inv_Exclusive == IF ExclusiveReservation(st, hv) /\ OneLiveEntryPerSlate(st) THEN TRUE ELSE Cex("ExclusiveReservation")
+\* (not in configurations with injected divergences or forks: those are repaired by a scan)
+Inv_Held == IF \A w \in Wallets(st) : ReservationHeld(st, hv, w) THEN TRUE ELSE Cex("ReservationHeld")
 \* C06: every state a crash can leave behind (after each persistent effect of the last
 \* operation) is consistent
 Inv_Crash == IF \A i \in DOMAIN mids : \A w \in DOMAIN mids[i].w : CrashConsistent(mids[i], w) THEN TRUE ELSE Cex("CrashConsistent")
